@@ -14,8 +14,13 @@ import (
 func c05pkt(name string) packet.Packet {
 	var p packet.Packet
 	vrt.Bytes(name, p[:4])
-	p[3] = p[3]&0xCF | byte(vrt.Choose("afc", 0, 3))<<4
-	p[4] = []byte{0, 1, 170, 183, 184, 255}[vrt.Choose("afLength", 0, 5)]
+	if vrt.Tier() == 0 {
+		p[3] = p[3]&0xCF | []byte{0x10, 0x30}[vrt.Choose("afc", 0, 1)]
+		p[4] = []byte{0, 183, 255}[vrt.Choose("afLength", 0, 2)]
+	} else {
+		p[3] = p[3]&0xCF | byte(vrt.Choose("afc", 0, 3))<<4
+		p[4] = []byte{0, 1, 170, 183, 184, 255}[vrt.Choose("afLength", 0, 5)]
+	}
 	start := 4
 	if p[3]&0x20 != 0 {
 		p[5] = vrt.Byte(name + ".flags")
@@ -28,9 +33,9 @@ func c05pkt(name string) packet.Packet {
 			p[j] = 0xFF
 		}
 	}
-	body := make([]byte, 8)
+	body := make([]byte, 6+2*vrt.Tier())
 	vrt.Bytes(name+".body", body)
-	for j := 0; j < 8 && start+j < 188; j++ {
+	for j := 0; j < len(body) && start+j < 188; j++ {
 		p[start+j] = body[j]
 	}
 	return p
